@@ -441,9 +441,19 @@ where
     LM: MatchLiteral,
     <T as FromStr>::Err: Debug,
 {
+    let left_is_compatible = |bin_op_idx: usize| {
+        bin_op_idx == 0 || {
+            let op = &bin_ops[bin_op_idx];
+            let left = &bin_ops[bin_op_idx - 1];
+            left.op.prio < op.op.prio || (left.op.prio == op.op.prio && left.idx == op.idx)
+        }
+    };
     let prio_increase =
         |bin_op_node_idx: usize| match (&nodes[bin_op_node_idx], &nodes[bin_op_node_idx + 1]) {
-            (DeepNode::Num(_), DeepNode::Num(_)) if bin_ops[bin_op_node_idx].op.is_commutative => {
+            (DeepNode::Num(_), DeepNode::Num(_))
+                if bin_ops[bin_op_node_idx].op.is_commutative
+                    && left_is_compatible(bin_op_node_idx) =>
+            {
                 let prio_inc = 5;
                 &bin_ops[bin_op_node_idx].op.prio * 10 + prio_inc
             }
